@@ -1,9 +1,316 @@
 import Driver.Codec
-/-! Protocol ops of the `Static` cluster: decode, call the model, print. -/
+import XdocModel.Static
+import XdocModel.Google
+import XdocModel.CoreCollect
+import XdocModel.Dynamic
+/-! Protocol ops of the `Static` cluster (collection: C07, C16): decode, call the model, print.
+
+Trees travel as a `;`-joined list of tokens (each token a codec string) in prefix order:
+`tree := stmt* "E"`, `stmt := "F" async name decos doc tree | "C" name decos doc tree |
+"I" isCompare op0Eq optstr optstr runsThen runsElse tree tree | "B" runs tree | "M" name | "O"`,
+`decos := n (kind value)^n` (`kind`: N name, A attribute, X other), `doc := "0" | "1" text endline`,
+`optstr := "0" | "1" text`. -/
 namespace Xdoc.Driver
-open Xdoc
+open Xdoc Py Static Google Core Dynamic
+
+abbrev Toks := List Str
+
+def tokIs (t : Str) (s : String) : Bool := t == s.toList
+def tokNat (t : Str) : Nat := (String.ofList t).toNat!
+def tokBool (t : Str) : Bool := t == "1".toList
+
+def parseDecos : Nat → Toks → Option (List Deco × Toks)
+  | 0, r => some ([], r)
+  | n + 1, k :: v :: r =>
+    match parseDecos n r with
+    | none => none
+    | some (ds, r') =>
+      let d : Deco := if tokIs k "N" then .name v else if tokIs k "A" then .attr v else .other
+      some (d :: ds, r')
+  | _, _ => none
+
+def parseDoc : Toks → Option (Option Doc × Toks)
+  | f :: r =>
+    if tokIs f "0" then some (none, r) else
+    match r with
+    | text :: e :: r' => some (some ⟨text, tokNat e⟩, r')
+    | _ => none
+  | [] => none
+
+def parseOptStr : Toks → Option (Option Str × Toks)
+  | f :: r =>
+    if tokIs f "0" then some (none, r) else
+    match r with
+    | s :: r' => some (some s, r')
+    | _ => none
+  | [] => none
+
+partial def parseTree : Toks → Option (Tree × Toks)
+  | [] => none
+  | t :: r =>
+    if tokIs t "E" then some (.done, r)
+    else if tokIs t "F" then
+      match r with
+      | a :: name :: n :: r1 => do
+        let (ds, r2) ← parseDecos (tokNat n) r1
+        let (doc, r3) ← parseDoc r2
+        let (body, r4) ← parseTree r3
+        let (next, r5) ← parseTree r4
+        pure (.func (tokBool a) name ds doc body next, r5)
+      | _ => none
+    else if tokIs t "C" then
+      match r with
+      | name :: n :: r1 => do
+        let (ds, r2) ← parseDecos (tokNat n) r1
+        let (doc, r3) ← parseDoc r2
+        let (body, r4) ← parseTree r3
+        let (next, r5) ← parseTree r4
+        pure (.cls name ds doc body next, r5)
+      | _ => none
+    else if tokIs t "I" then
+      match r with
+      | ic :: oe :: r1 => do
+        let (l, r2) ← parseOptStr r1
+        let (c, r3) ← parseOptStr r2
+        match r3 with
+        | r1f :: r2f :: r4 =>
+          let (body, r5) ← parseTree r4
+          let (orelse, r6) ← parseTree r5
+          let (next, r7) ← parseTree r6
+          pure (.ifs ⟨tokBool ic, tokBool oe, l, c⟩ (tokBool r1f) (tokBool r2f) body orelse next, r7)
+        | _ => none
+      | _ => none
+    else if tokIs t "B" then
+      match r with
+      | f :: r1 => do
+        let (body, r2) ← parseTree r1
+        let (next, r3) ← parseTree r2
+        pure (.comp (tokBool f) body next, r3)
+      | _ => none
+    else if tokIs t "M" then
+      match r with
+      | name :: r1 => do
+        let (next, r2) ← parseTree r1
+        pure (.imp name next, r2)
+      | _ => none
+    else if tokIs t "O" then do
+      let (next, r1) ← parseTree r
+      pure (.other next, r1)
+    else none
+
+/-- module := doc tree -/
+def parseModule (toks : Toks) : Option Static.Module := do
+  let (doc, r) ← parseDoc toks
+  let (body, _) ← parseTree r
+  pure { doc := doc, body := body }
+
+partial def parseFs : Toks → Option (Fs × Toks)
+  | [] => none
+  | t :: r =>
+    if tokIs t "E" then some (.nil, r)
+    else if tokIs t "f" then
+      match r with
+      | name :: r1 => do
+        let (rest, r2) ← parseFs r1
+        pure (.file name rest, r2)
+      | _ => none
+    else if tokIs t "d" then
+      match r with
+      | name :: r1 => do
+        let (sub, r2) ← parseFs r1
+        let (rest, r3) ← parseFs r2
+        pure (.dir name sub rest, r3)
+      | _ => none
+    else none
+
+def encLines : Option (Int × Nat) → String
+  | none => "none"
+  | some (a, b) => toString a ++ "," ++ toString b
+
+def encCallDef (c : CallDef) : String :=
+  encStr c.callname ++ "/" ++ encOptStr c.doc ++ "/" ++ encLines c.lines
+
+def encPairs (l : List (Str × Option Str)) : String :=
+  "|".intercalate (l.map fun (k, d) => encStr k ++ "/" ++ encOptStr d)
+
+def encBlock (b : Block) : String := encStr b.key ++ "/" ++ encStr b.text ++ "/" ++ toString b.offset
+
+def decStyle (s : String) : Style :=
+  if s == "freeform" then .freeform else if s == "google" then .google else .auto
+
+/-- a freeform piece: `T/<text>` or `P/<line_offset>/<exec lines>/<want lines | N>/<orig lines | N>` -/
+def decPiece (f : String) : Option FPiece :=
+  match f.splitOn "/" with
+  | ["T", s] => some (.text (decStr s))
+  | ["P", off, ex, w, o] =>
+    some (.part { execLines := decStrList ex,
+                  wantLines := if w == "N" then none else some (decStrList w),
+                  origLines := if o == "N" then none else some (decStrList o),
+                  lineOffset := off.toNat! })
+  | _ => none
+
+def decPieces (f : String) : Option (List FPiece) :=
+  if f == "ERR" then none
+  else if f == "~" then some []
+  else (f.splitOn "|").mapM decPiece
+
+def encEx (e : Ex) : String :=
+  toString e.num ++ "/" ++ toString e.lineno ++ "/" ++ encStr e.docsrc ++ "/" ++
+    (match e.blockType with | none => "N" | some b => "B" ++ encStr b) ++ "/" ++
+    (match e.parts with | none => "N" | some ps => encNatList (ps.map (·.lineOffset))) ++ "/" ++
+    encStr (uniqueCallname e)
+
+/-! object graphs: tokens `graph := entry* "E"`, `entry := "I" key item | "C" key facts n (key item)^n`,
+    `item := valid wrap facts facts`, `facts := optstr objclass optstr hasName optstr`,
+    `objclass := "0" | "1" | "2" text` -/
+
+def parseFacts (t : Toks) : Option (Facts × Toks) := do
+  let (m, r1) ← parseOptStr t
+  let (oc, r2) ← (match r1 with
+    | f :: r =>
+      if tokIs f "0" then some ((none : Option (Option Str)), r)
+      else if tokIs f "1" then some (some none, r)
+      else match r with
+        | s :: r' => some (some (some s), r')
+        | [] => none
+    | [] => none)
+  let (g, r3) ← parseOptStr r2
+  match r3 with
+  | hn :: r4 =>
+    let (d, r5) ← parseOptStr r4
+    pure ({ module := m, objclassModule := oc, globalsName := g, hasName := tokBool hn, doc := d }, r5)
+  | [] => none
+
+def decWrap (t : Str) : Wrap :=
+  if tokIs t "P" then .property else if tokIs t "S" then .staticmethod
+  else if tokIs t "K" then .classmethod else .none
+
+def parseItem : Toks → Option (Item × Toks)
+  | v :: w :: r => do
+    let (s, r1) ← parseFacts r
+    let (i, r2) ← parseFacts r1
+    pure ({ valid := tokBool v, wrap := decWrap w, self := s, inner := i }, r2)
+  | _ => none
+
+def parseMembers : Nat → Toks → Option (List (Str × Item) × Toks)
+  | 0, r => some ([], r)
+  | n + 1, k :: r => do
+    let (it, r1) ← parseItem r
+    let (ms, r2) ← parseMembers n r1
+    pure ((k, it) :: ms, r2)
+  | _, _ => none
+
+partial def parseEntries : Toks → Option (List (Str × Val))
+  | [] => none
+  | t :: r =>
+    if tokIs t "E" then some []
+    else if tokIs t "I" then
+      match r with
+      | k :: r1 => do
+        let (it, r2) ← parseItem r1
+        let rest ← parseEntries r2
+        pure ((k, .item it) :: rest)
+      | _ => none
+    else if tokIs t "C" then
+      match r with
+      | k :: r1 => do
+        let (f, r2) ← parseFacts r1
+        match r2 with
+        | n :: r3 =>
+          let (ms, r4) ← parseMembers (tokNat n) r3
+          let rest ← parseEntries r4
+          pure ((k, .cls f ms) :: rest)
+        | [] => none
+      | _ => none
+    else none
+
+def wrapName : Wrap → String
+  | .none => "-" | .property => "P" | .staticmethod => "S" | .classmethod => "K"
+
+/-- what matters of an item for the walk: inert, or (wrapper kind, has a name, docstring) -/
+def projItem (modname : Str) (classLevel : Bool) (it : Item) : String :=
+  if it.valid && definedBy modname it.target then
+    let f := if classLevel then it.target else it.self
+    "func:" ++ wrapName it.wrap ++ ":" ++ encBool f.hasName ++ ":" ++ encOptStr f.doc
+  else "inert"
+
+def projGraph (g : ObjGraph) : String :=
+  "|".intercalate (g.dict.map fun (k, v) =>
+    encStr k ++ "=" ++
+      match v with
+      | .item it => projItem g.name false it
+      | .cls f ms =>
+        if definedBy g.name f then
+          "cls:" ++ encOptStr f.doc ++ "{" ++
+            ";".intercalate (ms.map fun (mk, it) => encStr mk ++ "=" ++ projItem g.name true it) ++ "}"
+        else "inert")
+
+def decCfg (flags : String) (exts : String) : WalkCfg × Bool :=
+  match decBits flags with
+  | [wp, wm, rec, chk] => ({ withPkg := wp, withMod := wm, recursive := rec, validExts := decStrList exts }, chk)
+  | _ => ({ validExts := decStrList exts }, true)
 
 def opsStatic : List String → Option String
+  | ["calldefs", src, tree] =>
+    some (match parseModule (decStrList tree) with
+      | none => "bad-tree"
+      | some m =>
+        match parseStaticCalldefs (decStrList src) m with
+        | .error _ => "error:IndexError"
+        | .ok cds => "ok\t" ++ "|".intercalate (cds.map encCallDef))
+  | ["inventory", src, tree] =>
+    some (match parseModule (decStrList tree) with
+      | none => "bad-tree"
+      | some m =>
+        let loc : Locator := fun d => match docLines (decStrList src) d with | .ok r => some r | .error _ => none
+        "ok\t" ++ "|".intercalate ((inventory loc m).map encCallDef))
+  | ["google_split", d] => some ("|".intercalate ((splitGoogle (decStr d)).map encBlock))
+  | ["is_tag_line", l] => some (encBool (isTagLine (decStr l)))
+  | ["examples", style, d, callname, lineno, gok, pieces] =>
+    some (match decPieces pieces with
+      | none =>
+        if pieces == "ERR" then
+          "|".intercalate ((parseDocstrExamples (decStyle style) (decStr d) (decStr callname) lineno.toNat!
+            (decBits gok) none).map encEx)
+        else "bad-pieces"
+      | some ps =>
+        "|".intercalate ((parseDocstrExamples (decStyle style) (decStr d) (decStr callname) lineno.toNat!
+          (decBits gok) (some ps)).map encEx))
+  | ["package", flags, exts, isfile, fs] =>
+    some (if isfile == "1" then
+        "|".intercalate ((packageModpaths (decCfg flags exts).1 (decCfg flags exts).2 .file).map encStrList)
+      else match parseFs (decStrList fs) with
+        | none => "bad-fs"
+        | some (l, _) =>
+          let (cfg, chk) := decCfg flags exts
+          "|".intercalate ((packageModpaths cfg chk (.dir l)).map encStrList))
+  | ["splitext", n] => some (encStr (splitExt (decStr n)))
+  | ["dynamic", modname, doc, graph] =>
+    some (match parseEntries (decStrList graph) with
+      | none => "bad-graph"
+      | some es =>
+        let d := if doc == "none" then none else some (decStr (doc.drop 5).toString)
+        encPairs (dynamicCollect { name := decStr modname, doc := d, dict := es }))
+  | ["graph_proj", modname, graph] =>
+    some (match parseEntries (decStrList graph) with
+      | none => "bad-graph"
+      | some es => projGraph { name := decStr modname, doc := none, dict := es })
+  | ["exec_proj", modname, other, tree] =>
+    some (match parseModule (decStrList tree) with
+      | none => "bad-tree"
+      | some m => projGraph (execModule (decStr modname) (decStr other) m))
+  | ["exec_dynamic", modname, other, tree] =>
+    some (match parseModule (decStrList tree) with
+      | none => "bad-tree"
+      | some m => encPairs (dynamicCollect (execModule (decStr modname) (decStr other) m)))
+  | ["static_pairs", tree] =>
+    some (match parseModule (decStrList tree) with
+      | none => "bad-tree"
+      | some m => encPairs ((visitModule (fun _ => none) m).map fun c => (c.callname, c.doc)))
+  | ["in_fragment", modname, other, tree] =>
+    some (match parseModule (decStrList tree) with
+      | none => "bad-tree"
+      | some m => encBool (fragmentOk (decStr modname) (decStr other) m))
   | _ => none
 
 end Xdoc.Driver
